@@ -15,9 +15,27 @@ RULE = ("one case per (table name in xdis.op_imports.op_imports) plus one per re
         "get_opcode_module; each case checks all 256 opcode numbers and all category sets; distinct = distinct table "
         "module x reference pairs")
 ASSUMPTIONS = ["opcode module of each installed interpreter is the ground truth for that major.minor",
-               "versions not in {2.7,3.6..3.13}: invariants only"]
+               "versions not in {2.7,3.6..3.13}: invariants plus M-extarg (EXTENDED_ARG number / HAVE_ARGUMENT by version, "
+               "conformance-checked against the eight interpreters it overlaps with)"]
 
 CATS = ["hasjrel", "hasjabs", "hasconst", "hasname", "haslocal", "hasfree", "hascompare"]
+
+
+def m_extarg(vt):
+    """M-extarg: number of EXTENDED_ARG per version (Lib/opcode.py history: introduced in 2.0 at 143, moved to 145
+    in 2.7 when SET_ADD/MAP_ADD took 146/147, back at 143 in 3.0/3.1, 144 from 3.2 on when SETUP_WITH took 143, renumbered
+    in 3.13).  Conformance with the nine installed interpreters is checked on every run (cross_check of the model)."""
+    if vt < (2, 0):
+        return None
+    if vt < (2, 7):
+        return 143
+    if vt == (2, 7):
+        return 145
+    if vt < (3, 2):
+        return 143
+    if vt < (3, 13):
+        return 144
+    return None     # 3.13+: compared with the interpreter directly
 
 
 def prepare(tier):
@@ -129,6 +147,13 @@ def run_case(case, ctx):
         if not hasattr(opc, "EXTENDED_ARG") or opmap.get("EXTENDED_ARG") != opc.EXTENDED_ARG:
             bad("EXTENDED_ARG", "EXTENDED_ARG attribute %r vs opmap %r" % (getattr(opc, "EXTENDED_ARG", None), opmap.get("EXTENDED_ARG")))
         want = 16 if vt < (3, 6) else 8
+        if vt >= (2, 0):
+            num = m_extarg(vt)
+            ctx.count("extarg_number_checked")
+            if num is not None and getattr(opc, "EXTENDED_ARG", None) != num:
+                bad("EXTENDED_ARG-number", "EXTENDED_ARG is %r, the %d.%d interpreter uses %d" % (getattr(opc, "EXTENDED_ARG", None), vt[0], vt[1], num))
+            if vt < (3, 13) and opc.HAVE_ARGUMENT != 90:
+                bad("HAVE_ARGUMENT-number", "HAVE_ARGUMENT is %r, every interpreter before 3.13 uses 90" % (opc.HAVE_ARGUMENT,))
         if getattr(opc, "EXTENDED_ARG_SHIFT", None) != want:
             bad("EXTENDED_ARG_SHIFT", "shift %r, expected %d" % (getattr(opc, "EXTENDED_ARG_SHIFT", None), want))
     # sets and lists agree inside the table
@@ -162,6 +187,11 @@ def run_case(case, ctx):
             bad("opname-extra:%d" % o, "opname[%d] is %r, CPython has no such opcode" % (o, opname[o]))
     if opc.HAVE_ARGUMENT != ref["HAVE_ARGUMENT"]:
         bad("HAVE_ARGUMENT", "HAVE_ARGUMENT %r vs %r" % (opc.HAVE_ARGUMENT, ref["HAVE_ARGUMENT"]))
+    if m_extarg(vt) is not None:
+        ctx.count("m_extarg_conformance")
+        if m_extarg(vt) != ref["EXTENDED_ARG"] or ref["HAVE_ARGUMENT"] != 90:
+            ctx.violation("model:m_extarg:%d.%d" % vt, "M-extarg says %r, CPython %s has EXTENDED_ARG=%r HAVE_ARGUMENT=%r"
+                          % (m_extarg(vt), ref["ver"], ref["EXTENDED_ARG"], ref["HAVE_ARGUMENT"]))
     if opc.EXTENDED_ARG != ref["EXTENDED_ARG"]:
         bad("EXTENDED_ARG-value", "EXTENDED_ARG %r vs %r" % (opc.EXTENDED_ARG, ref["EXTENDED_ARG"]))
     for cat in CATS:
